@@ -23,6 +23,7 @@ from ..util import MUTATORS, base_of, body_walk, src, store_targets
 
 TABLE = "ML_ALLOWLIST"
 SHARED, FRESH = "shared", "fresh"
+SKIP_SEQUENCE_WORLDS = False  # set by C07, which runs the exploration itself
 TABLE_INNER_SHARED: List[str] = []  # names bound to more than one key of the table literal (filled by run())
 
 
@@ -206,6 +207,7 @@ def run(rep: Report, tier: str):
         "instance / local), every write by the depth it writes at; plus an effect scan of hook.py and ml.py for writes to "
         "module globals, class attributes and shared defaults."
     )
+    rep.rule("C11.sequence-worlds", "after every operation sequence the permitted globals are exactly built-in + current additions; table untouched", 0 if SKIP_SEQUENCE_WORLDS else 1)
     rep.rule("C11.no-write-through", "no write reaches the built-in table, its inner dicts, or any allowlist object shared between instances/activations", 3)
     rep.rule("C11.no-accumulator", "no function of hook.py/ml.py writes a module global, class attribute or shared default", 2)
     rep.rule("C11.per-activation", "installed hooks are closures of this activation reading its own also_allow", 2)
@@ -429,3 +431,8 @@ def run(rep: Report, tier: str):
         rep.bad("C11.per-activation", init.qualname, "additions-escape", f"`{src(esc[0])}` stores the additions outside the instance", init.file, esc[0].lineno)
     else:
         rep.ok("C11.per-activation", init.qualname, "also_allow is only folded into this instance's allowlist", f"{init.file}:{init.line}")
+    # interpreted last: the structural rules above stand on their own if a sequence cannot be interpreted
+    from ..envworlds import C11_KEYS, report_sequence_worlds
+
+    if not SKIP_SEQUENCE_WORLDS:
+        report_sequence_worlds(repo, rep, "C11.sequence-worlds", tier, C11_KEYS, nested=False)
